@@ -1,8 +1,10 @@
 """props/C07.py — descriptor for property C07 (experience and learned models mirror the history)."""
 REPO_SRCS = ["src/MDP/Experience.cpp", "src/MDP/SparseExperience.cpp", "src/Bandit/Experience.cpp",
              "src/Seeder.cpp", "src/Factored/MDP/CooperativeExperience.cpp",
-             "src/Factored/MDP/CooperativeMaximumLikelihoodModel.cpp", "src/Factored/Utils/BayesianNetwork.cpp",
-             "src/Factored/Utils/Core.cpp", "src/Factored/Utils/FactoredMatrix.cpp"]
+             "src/Factored/MDP/CooperativeMaximumLikelihoodModel.cpp",
+             "src/Factored/MDP/CooperativeThompsonModel.cpp", "src/Factored/Utils/BayesianNetwork.cpp",
+             "src/Factored/Utils/Core.cpp", "src/Factored/Utils/FactoredMatrix.cpp",
+             "src/Factored/Bandit/Experience.cpp"]
 # Eigen's documented debugging switch: storage the library never writes reads back as NaN, so an
 # uninitialised model cell is observable deterministically (DESIGN §6, C07/C10 row).
 EXTRA_CXXFLAGS = ["-DEIGEN_INITIALIZE_MATRICES_BY_NAN"]
@@ -63,7 +65,17 @@ def gen_mdp(rng, length, S=None, A=None, ek=None, strict=True, kinds=("d",), foc
         models.append((kind, Trk(n, last, flag)))
         ops.append("m %s %d" % (kind, flag))
     if rng.random() < 0.5: mk()
+    nt = 0                      # Thompson models (constructor syncs every row)
+    thompson = (not focus) and rng.random() < 0.6
     while len(ops) < length:
+        if thompson and rng.random() < 0.12:
+            v = rng.random()
+            if nt < 2 and (nt == 0 or v < 0.2): ops.append("tm"); nt += 1
+            elif v < 0.5: ops.append("ty %d" % rng.randrange(nt))
+            else:
+                k = rng.choice(hot) if rng.random() < 0.7 else rng.choice(keys)
+                ops.append("tp %d %d %d" % (rng.randrange(nt), k[0], k[1]))
+            continue
         u = rng.random()
         if focus and models:                       # long run on few pairs: record + incremental sync,
             u = 0.0 if rng.random() < 0.995 else rng.choice([0.6, 0.67, 0.84])   # rare sync(s,a) / sync() / dump
@@ -148,7 +160,7 @@ def gen_coop(rng, maxops=60):
         parts.append(L(ag)); parts.append(str(n))
         for _ in range(n):
             parts.append(L(sorted(rng.sample(range(nf), rng.randint(1, nf)))))
-    ops = []; nm = 0
+    ops = []; nm = 0; ntm = 0
     rews = rng.sample(REW, rng.randint(2, 6))
     n = rng.randint(3, maxops)
     pool = [([rng.randrange(x) for x in S], [rng.randrange(x) for x in A]) for _ in range(rng.randint(1, 4))]
@@ -160,8 +172,16 @@ def gen_coop(rng, maxops=60):
             ops.append("r %s %s %s %s" % (" ".join(map(str, s)), " ".join(map(str, a)), " ".join(map(str, s1)),
                                           " ".join(rng.choice(rews) for _ in S)))
             if nm and rng.random() < 0.5: ops.append("ci %d" % rng.randrange(nm))
-        elif u < 0.68: ops.append("z")
-        elif u < 0.76: ops.append("d")
+        elif u < 0.66: ops.append("z")
+        elif u < 0.72: ops.append("d")
+        elif u < 0.76:
+            v = rng.random()
+            if ntm < 2 and (ntm == 0 or v < 0.25): ops.append("ctm"); ntm += 1
+            elif v < 0.5: ops.append("cty %d" % rng.randrange(ntm))
+            elif v < 0.75: ops.append("cti %d" % rng.randrange(ntm))
+            else:
+                s, a = rng.choice(pool)
+                ops.append("ctp %d %s %s" % (rng.randrange(ntm), " ".join(map(str, s)), " ".join(map(str, a))))
         elif u < 0.84 and nm < 2: ops.append("cm %d" % rng.randint(0, 1)); nm += 1
         elif nm and u < 0.90: ops.append("cy %d" % rng.randrange(nm))
         elif nm:
@@ -169,6 +189,25 @@ def gen_coop(rng, maxops=60):
             ops.append("cp %d %s %s" % (rng.randrange(nm), " ".join(map(str, s)), " ".join(map(str, a))))
     ops.append("d")
     return " ".join(parts) + " %d %s" % (len(ops), " ".join(ops))
+
+
+def gen_fbandit(rng):
+    na = rng.randint(1, 4); A = [rng.randint(2, 3) for _ in range(na)]
+    ng = rng.randint(1, 3)
+    deps = [sorted(rng.sample(range(na), rng.randint(1, min(na, 3)))) for _ in range(ng)]
+    def L(xs): return "%d %s" % (len(xs), " ".join(map(str, xs)))
+    rews = rng.sample(REW, rng.randint(2, 6))
+    pool = [[rng.randrange(x) for x in A] for _ in range(rng.randint(1, 4))]
+    ops = []
+    for _ in range(rng.randint(2, 50)):
+        u = rng.random()
+        if u < 0.8:
+            a = rng.choice(pool) if rng.random() < 0.7 else [rng.randrange(x) for x in A]
+            ops.append("r %s %s" % (" ".join(map(str, a)), " ".join(rng.choice(rews) for _ in range(ng))))
+        elif u < 0.9: ops.append("z")
+        else: ops.append("d")
+    ops.append("d")
+    return "fbandit %s %d %s %d %s" % (L(A), ng, " ".join(L(d) for d in deps), len(ops), " ".join(ops))
 
 
 def gen(rng, tier):
@@ -179,7 +218,7 @@ def gen(rng, tier):
         L = rng.choice([5, 10, 20, 40, 80, 150, 300])
         out.append(gen_mdp(rng, L, strict=(rng.random() < 0.75), kinds=kinds))
     for i in range(nshort // 10):
-        out.append(gen_svt(rng)); out.append(gen_bandit(rng))
+        out.append(gen_svt(rng)); out.append(gen_bandit(rng)); out.append(gen_fbandit(rng))
     for i in range(nshort // 3):
         out.append(gen_coop(rng))
     # histories crossing the forced-resync threshold (visitSum % 10000 == 0)
